@@ -235,6 +235,20 @@ def _wide_stream(rng, tier):
             x, y = y, x
         # same object only: with distinct objects Interval.__init__'s precise_diff (C06) converts to UTC and overflows first
         yield _mk(rng, rng.choice(("interval", "diff", "sub", "abs")), x, y, 1)
+    # ... and in named zones: the first days of year 1 (the zone is on its initial local mean time there) against a partner of the
+    # same zone on a modern offset. East of Greenwich the UTC reading of the early endpoint is not representable
+    names = D.ZN
+    lo_ok, lim = Z.to_us(dt.datetime(1800, 1, 1)), Z.limit_us(YMAX) - 400 * DAY
+    for _ in range(n // 60):
+        zi = rng.randrange(len(names))
+        edge = D.MIN_US + rng.choice((0, 1, rng.randint(0, 3600 * US), rng.randint(0, 2 * DAY)))
+        if len(D.wall_solutions(names[zi], edge, YMAX)) != 1:
+            continue
+        w2, f2, _n = _local(names[zi], rng.randint(lo_ok + DAY, lim - DAY))
+        x, y = (str(zi), edge, 0), (str(zi), w2, f2)
+        if rng.random() < 0.5:
+            x, y = y, x
+        yield _mk(rng, rng.choice(("interval", "diff", "sub", "abs")), x, y, 1)
     for _ in range(n // 4):
         a = rng.randint(-719162, 2932896)
         r = rng.random()
